@@ -158,6 +158,8 @@ class _Canon(ast.NodeTransformer):
         self.generic_visit(n)
         if n.attr == "v":
             n.attr = "value"
+        elif n.attr == "d":
+            n.attr = "ndview"
         return n
 
     def visit_NamedExpr(self, n):
